@@ -568,14 +568,100 @@ func mentionsCall(n ast.Node, suffix string) bool {
 	return found
 }
 
+// paramSections: the writer's parameter-set critical sections (fix-F14a). In muxerSegmenter.writeAV1 / writeVP9 /
+// writeH265 / writeH264 the muxer mutex may be taken ONLY in the shape
+//
+//	s.mutex.Lock()
+//	codec.<Field> = <identifier or field selector>      (one or more; `s.pendingParamsChange = true` also allowed)
+//	s.mutex.Unlock()
+//
+// inside one statement list: no call, no Wait/Broadcast, no access to stream / server / segmenter state other than
+// pendingParamsChange. Such a section changes nothing the C06/C07 machine models (segments, parts, closed flags,
+// the path table, the condition variable): it is a STUTTER step of the writer, so the skeleton does not emit it.
+// Anything else in these functions that touches the mutex or the condition variable aborts extraction.
+// Returns the number of sync calls (Lock + Unlock) the sections account for.
+func paramSections(p *pkgSrc, key string, body *ast.BlockStmt) int {
+	accounted := 0
+	plainOperand := func(e ast.Expr) bool {
+		for {
+			switch x := e.(type) {
+			case *ast.Ident:
+				return x.Name != "s" && x.Name != "m" && x.Name != "track"
+			case *ast.SelectorExpr:
+				e = x.X
+			default:
+				return false
+			}
+		}
+	}
+	var scan func(list []ast.Stmt)
+	scan = func(list []ast.Stmt) {
+		in := false
+		n := 0
+		for _, st := range list {
+			es, isExpr := st.(*ast.ExprStmt)
+			if isExpr && syncCall(es.X) != "" {
+				switch {
+				case !in && selString(es.X.(*ast.CallExpr).Fun) == "s.mutex.Lock":
+					in, n = true, 0
+					accounted++
+				case in && selString(es.X.(*ast.CallExpr).Fun) == "s.mutex.Unlock":
+					if n == 0 {
+						fatalf("skeleton: %s: empty parameter critical section in %s", p.fset.Position(st.Pos()), key)
+					}
+					in = false
+					accounted++
+				default:
+					fatalf("skeleton: %s: synchronisation site %s in %s is outside the parameter-section shape", p.fset.Position(st.Pos()), src(p, st), key)
+				}
+				continue
+			}
+			if !in {
+				continue
+			}
+			as, ok := st.(*ast.AssignStmt)
+			if !ok || as.Tok != token.ASSIGN || len(as.Lhs) != 1 || len(as.Rhs) != 1 {
+				fatalf("skeleton: %s: only plain assignments may occur inside a parameter critical section of %s: %s", p.fset.Position(st.Pos()), key, src(p, st))
+			}
+			lhs := selString(as.Lhs[0])
+			if !(strings.HasPrefix(lhs, "codec.") && strings.Count(lhs, ".") == 1) && lhs != "s.pendingParamsChange" {
+				fatalf("skeleton: %s: parameter critical section of %s assigns %s (only codec.<Field> / s.pendingParamsChange)", p.fset.Position(st.Pos()), key, lhs)
+			}
+			if id, isID := as.Rhs[0].(*ast.Ident); !(isID && (id.Name == "true" || id.Name == "false")) && !plainOperand(as.Rhs[0]) {
+				fatalf("skeleton: %s: parameter critical section of %s: right-hand side %s is not an identifier / field selector", p.fset.Position(st.Pos()), key, src(p, as.Rhs[0]))
+			}
+			n++
+		}
+		if in {
+			fatalf("skeleton: parameter critical section of %s is not closed in the statement list it was opened in", key)
+		}
+	}
+	ast.Inspect(body, func(n ast.Node) bool {
+		switch x := n.(type) {
+		case *ast.BlockStmt:
+			scan(x.List)
+		case *ast.CaseClause:
+			scan(x.Body)
+		case *ast.CommClause:
+			scan(x.Body)
+		}
+		return true
+	})
+	return accounted
+}
+
 // checkSyncSites: every Lock/Unlock/Wait/Broadcast on the muxer mutex/cond in the package lies in one of
-// the functions the skeleton covers, and muxerStream.mutex/cond alias Muxer.mutex/cond.
+// the functions the skeleton covers (or in a parameter critical section of the segmenter, see paramSections),
+// and muxerStream.mutex/cond (and muxerSegmenter.mutex) alias Muxer.mutex/cond.
 func checkSyncSites(p *pkgSrc) {
 	allowed := map[string]bool{
 		"Muxer.Close": true, "Muxer.rotateParts": true, "Muxer.rotateSegments": true,
 		"Muxer.handleMultivariantPlaylist": true, "muxerStream.handleMediaPlaylist": true, "muxerStream.rotateParts": true,
 	}
-	aliasMutex, aliasCond, newCond := 0, 0, 0
+	paramFns := map[string]bool{
+		"muxerSegmenter.writeAV1": true, "muxerSegmenter.writeVP9": true, "muxerSegmenter.writeH265": true, "muxerSegmenter.writeH264": true,
+	}
+	aliasMutex, aliasCond, newCond, segmenterMutex := 0, 0, 0, 0
 	for fname, f := range p.files {
 		if !strings.HasPrefix(fname, "muxer") {
 			continue
@@ -596,29 +682,50 @@ func checkSyncSites(p *pkgSrc) {
 				}
 			}
 			key := recv + "." + fd.Name.Name
+			paramBudget := 0
+			if paramFns[key] {
+				paramBudget = paramSections(p, key, fd.Body)
+			}
 			ast.Inspect(fd.Body, func(n ast.Node) bool {
 				switch x := n.(type) {
 				case *ast.CallExpr:
 					if k := syncCall(x); k != "" && recv != "muxerServer" && !allowed[key] {
-						fatalf("skeleton: %s: synchronisation site %s in %s is not covered by the skeleton", p.fset.Position(x.Pos()), selString(x.Fun), key)
+						if paramBudget > 0 && (k == "lock" || k == "unlock") {
+							paramBudget--
+						} else {
+							fatalf("skeleton: %s: synchronisation site %s in %s is not covered by the skeleton", p.fset.Position(x.Pos()), selString(x.Fun), key)
+						}
 					}
 					if selString(x.Fun) == "sync.NewCond" && len(x.Args) == 1 && selString(x.Args[0].(*ast.UnaryExpr).X) == "m.mutex" {
 						newCond++
 					}
-				case *ast.KeyValueExpr:
-					if id, ok := x.Key.(*ast.Ident); ok {
+				case *ast.CompositeLit:
+					lit := selString(x.Type)
+					for _, el := range x.Elts {
+						kv, ok := el.(*ast.KeyValueExpr)
+						if !ok {
+							continue
+						}
+						id, ok := kv.Key.(*ast.Ident)
+						if !ok {
+							continue
+						}
 						if id.Name == "mutex" {
-							if u, ok := x.Value.(*ast.UnaryExpr); ok && u.Op == token.AND && selString(u.X) == "m.mutex" {
-								aliasMutex++
+							if u, ok := kv.Value.(*ast.UnaryExpr); ok && u.Op == token.AND && selString(u.X) == "m.mutex" {
+								if lit == "muxerSegmenter" {
+									segmenterMutex++
+								} else {
+									aliasMutex++
+								}
 							} else {
-								fatalf("skeleton: muxerStream.mutex is not &m.mutex at %s", p.fset.Position(x.Pos()))
+								fatalf("skeleton: %s.mutex is not &m.mutex at %s", lit, p.fset.Position(kv.Pos()))
 							}
 						}
 						if id.Name == "cond" {
-							if selString(x.Value) == "m.cond" {
+							if selString(kv.Value) == "m.cond" {
 								aliasCond++
 							} else {
-								fatalf("skeleton: muxerStream.cond is not m.cond at %s", p.fset.Position(x.Pos()))
+								fatalf("skeleton: muxerStream.cond is not m.cond at %s", p.fset.Position(kv.Pos()))
 							}
 						}
 					}
@@ -627,8 +734,8 @@ func checkSyncSites(p *pkgSrc) {
 			})
 		}
 	}
-	if aliasMutex == 0 || aliasMutex != aliasCond || newCond != 1 {
-		fatalf("skeleton: mutex/cond aliasing facts not found (mutex %d, cond %d, NewCond %d)", aliasMutex, aliasCond, newCond)
+	if aliasMutex == 0 || aliasMutex != aliasCond || newCond != 1 || segmenterMutex > 1 {
+		fatalf("skeleton: mutex/cond aliasing facts not found (mutex %d, cond %d, NewCond %d, segmenter %d)", aliasMutex, aliasCond, newCond, segmenterMutex)
 	}
 }
 
